@@ -8,10 +8,17 @@ package vh
 
 import (
 	"bytes"
+	"crypto/ecdsa"
+	"crypto/elliptic"
+	crand "crypto/rand"
+	"crypto/x509"
+	"crypto/x509/pkix"
 	"encoding/base64"
 	"encoding/json"
+	"encoding/pem"
 	"fmt"
 	"io"
+	"math/big"
 	"net"
 	"net/url"
 	"os"
@@ -29,34 +36,35 @@ import (
 )
 
 type cmdCase struct {
-	Server    string `json:"server"`
-	Trust     string `json:"trust"`
-	Format    string `json:"format"`
-	Lazy      bool   `json:"lazy"`
-	Bad       string `json:"bad"`
-	Rate      int    `json:"rate"`
-	MaxW      int    `json:"maxw"`
-	Workers   int    `json:"workers"`
-	Name      string `json:"name"`
-	Hdr       bool   `json:"hdr"`
-	Body      bool   `json:"body"`
-	Chunked   bool   `json:"chunked"`
-	MaxBody   int    `json:"maxbody"`
-	Redirects string `json:"redirects"`
-	KeepAlive bool   `json:"keepalive"`
-	Timeout   string `json:"timeout"`
-	ConnectTo bool   `json:"connectto"`
-	LAddr     bool   `json:"laddr"`
-	Prom      bool   `json:"prom"`
-	MaxConn   int    `json:"maxconn"`
-	Hosts     int    `json:"hosts"`
-	HTTP2     bool   `json:"http2"`
-	H2C       bool   `json:"h2c"`
-	HostHdr   bool   `json:"hosthdr"`
-	Stall     bool   `json:"stall"`
-	Head      bool   `json:"head"`
-	Lookup    bool   `json:"lookup"`
-	DNSDest   string `json:"dnsdest"` // "none" | "forever" | "off": the -connect-to destination is a name served by e2eDNS
+	Server     string `json:"server"`
+	Trust      string `json:"trust"`
+	Format     string `json:"format"`
+	Lazy       bool   `json:"lazy"`
+	Bad        string `json:"bad"`
+	Rate       int    `json:"rate"`
+	MaxW       int    `json:"maxw"`
+	Workers    int    `json:"workers"`
+	Name       string `json:"name"`
+	Hdr        bool   `json:"hdr"`
+	Body       bool   `json:"body"`
+	Chunked    bool   `json:"chunked"`
+	MaxBody    int    `json:"maxbody"`
+	Redirects  string `json:"redirects"`
+	KeepAlive  bool   `json:"keepalive"`
+	Timeout    string `json:"timeout"`
+	ConnectTo  bool   `json:"connectto"`
+	LAddr      bool   `json:"laddr"`
+	Prom       bool   `json:"prom"`
+	MaxConn    int    `json:"maxconn"`
+	Hosts      int    `json:"hosts"`
+	HTTP2      bool   `json:"http2"`
+	H2C        bool   `json:"h2c"`
+	HostHdr    bool   `json:"hosthdr"`
+	Stall      bool   `json:"stall"`
+	Head       bool   `json:"head"`
+	Lookup     bool   `json:"lookup"`
+	ClientCert string `json:"clientcert"` // "none" | "pair" (-cert and -key) | "onefile" (-cert holding both)
+	DNSDest    string `json:"dnsdest"`    // "none" | "forever" | "off": the -connect-to destination is a name served by e2eDNS
 }
 
 // e2eDNS is the address of the driver's DNS server (given to the command with -resolvers); e2eDNSQueries counts the
@@ -96,10 +104,26 @@ func startE2EDNS(t *testing.T) {
 	e2eDNS = srv.PacketConn.LocalAddr().String()
 }
 
+// clientCertPEM is a self-signed client certificate and its key, made once.
+var clientCertPEM = sync.OnceValues(func() (string, string) {
+	key, err := ecdsa.GenerateKey(elliptic.P256(), crand.Reader)
+	must(err)
+	tmpl := &x509.Certificate{SerialNumber: big.NewInt(1), Subject: pkix.Name{CommonName: "vegeta e2e client"}, NotBefore: time.Now().Add(-time.Hour),
+		NotAfter: time.Now().Add(24 * time.Hour), KeyUsage: x509.KeyUsageDigitalSignature, ExtKeyUsage: []x509.ExtKeyUsage{x509.ExtKeyUsageClientAuth}}
+	der, err := x509.CreateCertificate(crand.Reader, tmpl, tmpl, &key.PublicKey, key)
+	must(err)
+	kder, err := x509.MarshalECPrivateKey(key)
+	must(err)
+	return string(pem.EncodeToMemory(&pem.Block{Type: "CERTIFICATE", Bytes: der})), string(pem.EncodeToMemory(&pem.Block{Type: "EC PRIVATE KEY", Bytes: kder}))
+})
+
 func (c cmdCase) dnsName(dir string) string { return filepath.Base(dir) + ".dest.test" }
 
 func (c cmdCase) valid() bool {
-	if (c.Server == "tls" || c.Server == "tls2") != (c.Trust != "na") {
+	if c.ClientCert != "none" && c.Server != "tls" && c.Server != "mtls" {
+		return false
+	}
+	if (c.Server == "tls" || c.Server == "tls2" || c.Server == "mtls") != (c.Trust != "na") {
 		return false
 	}
 	if c.H2C && c.Server != "h2c" {
@@ -244,6 +268,9 @@ func (c cmdCase) op(dir string) map[string]any {
 	if c.Redirects == "nofollow" {
 		args = append(args, "-redirects", "-1")
 	}
+	if c.Redirects == "zero" {
+		args = append(args, "-redirects", "0")
+	}
 	if !c.KeepAlive {
 		args = append(args, "-keepalive=false")
 	}
@@ -289,8 +316,16 @@ func (c cmdCase) op(dir string) map[string]any {
 	if c.Server == "unix" {
 		args = append(args, "-unix-socket", "{{SOCK}}")
 	}
+	switch c.ClientCert {
+	case "pair":
+		args = append(args, "-cert", "{{DIR}}/client.pem", "-key", "{{DIR}}/client.key")
+	case "onefile":
+		args = append(args, "-cert", "{{DIR}}/both.pem")
+	}
+	certPEM, keyPEM := clientCertPEM()
 	return map[string]any{"op": "e2e", "server": c.Server, "dir": dir, "args": args,
-		"docs": map[string]string{"targets.txt": doc.String(), "own.txt": "own", "dflt.txt": "dflt"}}
+		"docs": map[string]string{"targets.txt": doc.String(), "own.txt": "own", "dflt.txt": "dflt",
+			"client.pem": certPEM, "client.key": keyPEM, "both.pem": certPEM + keyPEM}}
 }
 
 func TestDrv_E2E(t *testing.T) {
@@ -308,6 +343,9 @@ func TestDrv_E2E(t *testing.T) {
 			}
 			if c.DNSDest == "" {
 				c.DNSDest = "none"
+			}
+			if c.ClientCert == "" {
+				c.ClientCert = "none"
 			}
 			cases = append(cases, c)
 			tlcCases++
@@ -336,12 +374,16 @@ func TestDrv_E2E(t *testing.T) {
 	}
 	pick := func(xs ...string) string { return xs[r.Intn(len(xs))] }
 	for n := 0; n < nrand; {
-		c := cmdCase{HTTP2: r.Intn(4) != 0, Server: pick("plain", "plain", "plain", "tls", "unix", "tls2", "h2c"), Trust: "na", Format: pick("http", "json"), Lazy: r.Intn(2) == 0,
+		c := cmdCase{HTTP2: r.Intn(4) != 0, Server: pick("plain", "plain", "plain", "tls", "unix", "tls2", "h2c", "mtls"), Trust: "na", Format: pick("http", "json"), Lazy: r.Intn(2) == 0,
 			Bad: pick("none", "none", "none", "late"), Rate: []int{0, 50, 200, 2}[r.Intn(4)], MaxW: []int{1, 3}[r.Intn(2)], Workers: []int{1, 3}[r.Intn(2)],
 			Name: pick("", "n"), Hdr: r.Intn(2) == 0, Body: r.Intn(2) == 0, Chunked: r.Intn(3) == 0, MaxBody: []int{-1, -1, 0, 2, 9}[r.Intn(5)],
-			Redirects: pick("default", "default", "nofollow"), KeepAlive: r.Intn(4) != 0, Timeout: pick("default", "default", "default", "short"),
+			Redirects: pick("default", "default", "nofollow", "zero"), KeepAlive: r.Intn(4) != 0, Timeout: pick("default", "default", "default", "short"),
 			ConnectTo: r.Intn(3) == 0, LAddr: r.Intn(4) == 0, Prom: r.Intn(4) == 0, MaxConn: []int{0, 0, 1, 2}[r.Intn(4)], Hosts: 1 + r.Intn(2)}
-		if c.Server == "tls" || c.Server == "tls2" {
+		c.ClientCert = "none"
+		if c.Server == "mtls" || (c.Server == "tls" && r.Intn(3) == 0) {
+			c.ClientCert = pick("pair", "onefile", "pair", "none")
+		}
+		if c.Server == "tls" || c.Server == "tls2" || c.Server == "mtls" {
 			c.Trust = pick("insecure", "rootcert", "none")
 		}
 		c.H2C = c.Server == "h2c" && r.Intn(2) == 0
@@ -489,7 +531,7 @@ func TestDrv_E2E(t *testing.T) {
 				}
 				qs = append(qs, KV{"seq": seq, "attack": str(q, "attack"), "method": str(q, "method"), "path": str(q, "path"), "host": host, "dialhost": dialhost,
 					"flag": vals("X-Flag"), "own": vals("X-Own"), "body": str(q, "body"), "chunked": q["chunked"] == true, "ip": ip,
-					"conn": num("conn_id"), "tls": q["tls"] == true, "proto": str(q, "proto"), "start": num("start_ns") / 1000, "end": num("end_ns") / 1000})
+					"conn": num("conn_id"), "tls": q["tls"] == true, "client_certs": num("client_certs"), "proto": str(q, "proto"), "start": num("start_ns") / 1000, "end": num("end_ns") / 1000})
 			}
 		}
 		if len(qs) > 300 {
